@@ -35,6 +35,9 @@ struct Instant {
     spec: Model,
     /// index of the last step (<= this) that was a successful sync / checkpoint / close
     durable_step: usize,
+    /// index of the last step (<= this) that was a successful wal_checkpoint() / close(): those
+    /// calls write a commit marker, so what they cover is not within finding V1's reach
+    commit_step: usize,
     /// records written so far
     n_recs: usize,
     what: String,
@@ -89,9 +92,10 @@ fn record(seed: u64, case: u64, steps: usize) -> Option<Recorded> {
     let mut kinds = BTreeSet::new();
     let mut durable_step = 0usize;
     let mut uncovered: Vec<(String, usize)> = Vec::new();
+    let mut commit_step = 0usize;
     let mut rotated_since_last_record = false;
     // step 0: freshly opened, empty
-    instants.push(Instant { dir: read_dir(&wal_dir), synced: synced.clone(), spec: Model::default(), durable_step: 0, n_recs: 0, what: "open".into() });
+    instants.push(Instant { dir: read_dir(&wal_dir), synced: synced.clone(), spec: Model::default(), durable_step: 0, commit_step: 0, n_recs: 0, what: "open".into() });
     let mut ok = true;
     for step in 1..=steps {
         let mut pushed: Vec<(MOp, u8)> = Vec::new();
@@ -179,6 +183,9 @@ fn record(seed: u64, case: u64, steps: usize) -> Option<Recorded> {
         }
         if durable_call {
             durable_step = step;
+            if call_ok && matches!(kind, StepKind::Close | StepKind::Checkpoint) {
+                commit_step = step;
+            }
             // client-boundary monitor: when the call returned Ok, every record logged so far must be
             // covered by an fsync of its file (the only thing that makes "durable" true on a crash)
             // (a rotation after the last record leaves it in an outgoing file, which rotate() does not
@@ -192,6 +199,7 @@ fn record(seed: u64, case: u64, steps: usize) -> Option<Recorded> {
             synced: synced.clone(),
             spec: c05::predict_spec(&events),
             durable_step,
+            commit_step,
             n_recs: recs.len(),
             what: hist.last().cloned().unwrap_or_default(),
         });
@@ -426,8 +434,27 @@ fn run_history(rep: &mut Report, rules: Rules, seed: u64, case: u64, steps: usiz
                     } else if as_rules {
                         // explained by open findings; name the most specific one
                         let older_prefix = (0..lo).any(|j| c05::diff_kind(&obs, &rec.instants[j].spec).is_none());
-                        let id = if older_prefix { "C06-V1" } else { "C06-V4" };
-                        rep.known_rule(id, &format!("{} after '{}'", img.kind, inst.what.split('(').next().unwrap_or("")));
+                        // V1 (no commit marker behind a plain sync) can only cost what was logged after the
+                        // last wal_checkpoint() / close(); a recovered state older than THAT call needs
+                        // another explanation: the skipped-files rule (U4 / V4), or it is new
+                        let cs = inst.commit_step.min(lo);
+                        let within_v1 = (cs..lo).any(|j| c05::diff_kind(&obs, &rec.instants[j].spec).is_none());
+                        // (judged only while the log is a single file: once a rotation has happened the
+                        // outgoing file is known not to be fsynced and to be skipped by recovery - V4 / U4)
+                        if older_prefix && !within_v1 && img.flip.is_none() && img.cuts.len() == 1 {
+                            let without_u4 = predict_image(&rec, &img, rules.without(4));
+                            if c05::diff_kind(&without_u4, &dev).is_some() {
+                                rep.known_rule("C06-V4", &format!("{} after '{}'", img.kind, inst.what.split('(').next().unwrap_or("")));
+                            } else {
+                                rep.deviation(
+                                    &format!("crash:{}|state_older_than_last_checkpoint_or_close", img.kind),
+                                    detail(json!({"last_checkpoint_or_close_step": inst.commit_step, "last_durability_call_step": inst.durable_step})),
+                                );
+                            }
+                        } else {
+                            let id = if older_prefix { "C06-V1" } else { "C06-V4" };
+                            rep.known_rule(id, &format!("{} after '{}'", img.kind, inst.what.split('(').next().unwrap_or("")));
+                        }
                     } else {
                         let (kd, d) = c05::diff_kind(&obs, &dev).unwrap();
                         rep.deviation(&format!("crash:{}|vs_rules:{kd}", img.kind), detail(json!({"vs_known_rules": d})));
